@@ -1,9 +1,55 @@
-(** Property C04 — theorems only (statement, [exact], [Print Assumptions]).
-    See DESIGN.md section 5 for how each statement renders the property. *)
-From CB Require Import ProofLib Spec Inv_map.
+(** Property C04 - no orphaned or doubly-terminated upstream
+    Theorems only: statement, [exact], [Print Assumptions].  The statements are about the model
+    (coq/theories/Ops.v) under the conformant environment (Machine.v: [reach]); the readable trace
+    predicates are defined in MonitorSound.v, the parameter regimes in Results.v.  How each
+    statement renders the property, and how the model is tied to /repo, is in DESIGN.md. *)
+From CB Require Import ProofLib Spec MonitorSound Results.
+From CB Require Import Inv_combine Inv_share.
 
-Theorem C04_map (f : val -> val) p :
-  nsinks p = 1 -> resub p = false -> no_nest p = false -> c14 p = false ->
-  forall c : cfg (map_op f), reach p g_std c -> viols (ms c) = [] /\ dead c = false.
-Proof. exact (@map_safe f p). Qed.
+Theorem C04_map (f : val -> val) p (c : cfg (map_op f)) :
+  std p -> reach p g_std c -> forall i, sub_once i (trace c) /\ talkback_only_live i (trace c) /\ stop_once i (trace c) /\ no_pull_outside i (trace c).
+Proof. exact (fun H Hc => pk_c04 (map_protocol H Hc)). Qed.
 Print Assumptions C04_map.
+
+Theorem C04_filter (cond : val -> bool) p (c : cfg (filter_op cond)) :
+  std p -> reach p g_std c -> forall i, sub_once i (trace c) /\ talkback_only_live i (trace c) /\ stop_once i (trace c) /\ no_pull_outside i (trace c).
+Proof. exact (fun H Hc => pk_c04 (filter_protocol H Hc)). Qed.
+Print Assumptions C04_filter.
+
+Theorem C04_scan (r : val -> val -> val) (seed : val) p (c : cfg (scan_op r seed)) :
+  std p -> reach p g_std c -> forall i, sub_once i (trace c) /\ talkback_only_live i (trace c) /\ stop_once i (trace c) /\ no_pull_outside i (trace c).
+Proof. exact (fun H Hc => pk_c04 (scan_protocol H Hc)). Qed.
+Print Assumptions C04_scan.
+
+Theorem C04_skip (max : nat) p (c : cfg (skip_op max)) :
+  std p -> reach p g_std c -> forall i, sub_once i (trace c) /\ talkback_only_live i (trace c) /\ stop_once i (trace c) /\ no_pull_outside i (trace c).
+Proof. exact (fun H Hc => pk_c04 (skip_protocol H Hc)). Qed.
+Print Assumptions C04_skip.
+
+Theorem C04_take (max : nat) p (c : cfg (take_op max)) (Hmax : 1 <= max) :
+  std p -> reach p g_std c -> forall i, sub_once i (trace c) /\ talkback_only_live i (trace c) /\ stop_once i (trace c) /\ no_pull_outside i (trace c).
+Proof. exact (fun H Hc => pk_c04 (take_protocol Hmax H Hc)). Qed.
+Print Assumptions C04_take.
+
+Theorem C04_for_each p (c : cfg for_each_op) :
+  std p -> reach p g_std c -> forall i, sub_once i (trace c) /\ talkback_only_live i (trace c) /\ stop_once i (trace c) /\ no_pull_outside i (trace c).
+Proof. exact (fun H Hc => pk_c04 (for_each_protocol H Hc)). Qed.
+Print Assumptions C04_for_each.
+
+Theorem C04_merge (n : nat) p (c : cfg (merge_op n)) (Hn : 1 <= n) :
+  std_late p -> reach p g_std c -> forall i, sub_once i (trace c) /\ talkback_only_live i (trace c) /\ stop_once i (trace c) /\ no_pull_outside i (trace c).
+Proof. exact (fun H Hc => pk_c04 (merge_protocol Hn H Hc)). Qed.
+Print Assumptions C04_merge.
+
+Theorem C04_concat (n : nat) p (c : cfg (concat_op n)) :
+  std p -> reach p g_std c -> forall i, sub_once i (trace c) /\ talkback_only_live i (trace c) /\ stop_once i (trace c) /\ no_pull_outside i (trace c).
+Proof. exact (fun H Hc => pk_c04 (concat_protocol H Hc)). Qed.
+Print Assumptions C04_concat.
+
+(** combine (every arity n >= 1).  combine has recorded deviations (known_findings.json: KF1, KF2);
+    the theorem is that the monitor never records anything *but* those four kinds, so the
+    kinds of this property never occur. *)
+Theorem C04_combine (n : nat) p (c : cfg (combine_op n)) :
+  1 <= n -> std p -> reach p g_std c -> (forall i, ~ In (VSubTwice i) (viols (ms c)) /\ ~ In (VSubAfterOver i) (viols (ms c)) /\ ~ In (VUpEarly i) (viols (ms c)) /\ ~ In (VStopAfterStop i) (viols (ms c)) /\ ~ In (VOrphan i) (viols (ms c))).
+Proof. exact (@combine_c04 n p c). Qed.
+Print Assumptions C04_combine.
